@@ -108,9 +108,21 @@ type world struct {
 	m   model
 	clk int64
 	gen int
+	uni []string // the paths edits may touch (nil = c13Universe)
 }
 
-func (w *world) clone() *world { return &world{w.m.clone(), w.clk, w.gen} }
+func (w *world) clone() *world { return &world{w.m.clone(), w.clk, w.gen, w.uni} }
+
+func (w *world) universe() []string {
+	if w.uni != nil {
+		return w.uni
+	}
+	return c13Universe
+}
+
+// c13NamesakeUniverse repeats names across levels: d and e in the root, d, e
+// and x below them, d, x and z below those.
+var c13NamesakeUniverse = []string{"d", "e", "d/d", "d/x", "e/d", "e/x", "d/d/x", "d/d/d", "e/d/x", "e/d/z"}
 
 func (w *world) freshData() string { w.gen++; return fmt.Sprintf("c%03d", w.gen) } // always 4 bytes
 func (w *world) tick() int64       { w.clk++; return w.clk }
@@ -123,7 +135,7 @@ func (w *world) enabled() []c13op {
 		// The root itself is a regular file: only in-place edits of it.
 		return []c13op{{Kind: "edit"}, {Kind: "grow"}, {Kind: "chmod"}, {Kind: "swap"}, {Kind: "touch"}}
 	}
-	for _, p := range c13Universe {
+	for _, p := range w.universe() {
 		n := m[p]
 		if n == nil {
 			if m.isDir(parentOf(p)) {
@@ -136,7 +148,7 @@ func (w *world) enabled() []c13op {
 			out = append(out, c13op{Kind: "edit", P: p}, c13op{Kind: "grow", P: p}, c13op{Kind: "chmod", P: p},
 				c13op{Kind: "swap", P: p}, c13op{Kind: "touch", P: p})
 		}
-		for _, q := range c13Universe {
+		for _, q := range w.universe() {
 			if q == p || strings.HasPrefix(q, p+"/") || strings.HasPrefix(p, q+"/") || !m.isDir(parentOf(q)) {
 				continue
 			}
@@ -449,7 +461,56 @@ func c13Bases() []*world {
 	// One more: the synchronization root is itself a regular file.
 	w := &world{m: model{}}
 	w.m[""] = &mnode{Kind: 'f', Data: w.freshData(), Mtime: w.tick()}
-	return append(out, w)
+	out = append(out, w)
+	// Trees in which a name recurs at different levels with different content
+	// (lib/ and app/lib/), edited over c13NamesakeUniverse.
+	namesake := func(build func(file func(string, bool), dir func(string))) {
+		w := &world{m: model{}, uni: c13NamesakeUniverse}
+		build(func(p string, exec bool) {
+			w.m[p] = &mnode{Kind: 'f', Data: w.freshData(), Exec: exec, Mtime: w.tick()}
+		}, func(p string) { w.m[p] = &mnode{Kind: 'd'} })
+		out = append(out, w)
+	}
+	namesake(func(file func(string, bool), dir func(string)) { // d/{x, d/{x}}
+		dir("d")
+		file("d/x", false)
+		dir("d/d")
+		file("d/d/x", true)
+	})
+	namesake(func(file func(string, bool), dir func(string)) { // d/{x}, e/{x, d/{x}}
+		dir("d")
+		file("d/x", false)
+		dir("e")
+		file("e/x", false)
+		dir("e/d")
+		file("e/d/x", true)
+	})
+	namesake(func(file func(string, bool), dir func(string)) { // d/{x, d/{d}}, e/{d/{z}}: different shapes under the same name
+		dir("d")
+		file("d/x", false)
+		dir("d/d")
+		file("d/d/d", false)
+		dir("e")
+		dir("e/d")
+		file("e/d/z", false)
+	})
+	namesake(func(file func(string, bool), dir func(string)) { // a file and a directory share a name: d (file), e/{x, d/{x}}
+		file("d", false)
+		dir("e")
+		file("e/x", false)
+		dir("e/d")
+		file("e/d/x", false)
+	})
+	namesake(func(file func(string, bool), dir func(string)) { // e (dir) with e/d a file, d (dir) with d/d a dir
+		dir("d")
+		dir("d/d")
+		file("d/d/x", false)
+		file("d/x", false)
+		dir("e")
+		file("e/d", true)
+		file("e/x", false)
+	})
+	return out
 }
 
 // ---- observers: each keeps the state an endpoint keeps between scans ----
@@ -490,7 +551,8 @@ type supersets struct {
 }
 
 // supersetsOf lists the sets S (sorted slices) for one recheck set.
-func supersetsOf(recheck map[string]bool, m model, sp supersets) [][]string {
+func supersetsOf(recheck map[string]bool, w *world, sp supersets) [][]string {
+	m := w.m
 	if sp.Level == 0 {
 		return nil
 	}
@@ -511,7 +573,7 @@ func supersetsOf(recheck map[string]bool, m model, sp supersets) [][]string {
 	chain := append([]string{}, cands...)
 	if sp.Level >= 2 {
 		names := map[string]bool{}
-		for _, q := range c13Universe {
+		for _, q := range w.universe() {
 			names[q] = true
 		}
 		for q := range m {
@@ -680,7 +742,7 @@ func runC13(t testing.TB, bases []*world, c c13case, sup supersets, logf func(st
 			// "optionally plus extra paths": one more accelerated scan from the
 			// same baseline per superset of the reported paths; not chained.
 			if i == k-1 && (sup.Level >= 2 || (sup.Level == 1 && ob.schedule == 1<<uint(k-1))) {
-				for _, extra := range supersetsOf(recheck, w.m, sup) {
+				for _, extra := range supersetsOf(recheck, w, sup) {
 					rx := map[string]bool{}
 					for _, x := range extra {
 						rx[x] = true
@@ -766,8 +828,8 @@ func TestC13(t *testing.T) {
 			break
 		}
 	}
-	r.Rule(fmt.Sprintf("%d base trees (a in {absent, file, dir{x}} x d in 8 shapes up to depth 3, incl. a link, a FIFO, executable files; plus a root that is itself a file, edited in place) x every sequence of 1..%d enabled edits from {mkfile, mkdir, mklink, rm (recursive), mv (incl. replacing a file or an empty directory), edit (same size, later mtime), grow, chmod, swap (same size and mtime, new inode), touch} over the path universe %v; for every sequence every scan schedule (which edits are followed by a scan; 2^(n-1)) is run as a chain of accelerated core.Scan calls whose baseline/cache/ignore cache are the previous accelerated result and whose recheck set is exactly the paths created/deleted/modified since the previous scan (no ancestors); each accelerated result is compared with a cold core.Scan of the same disk; at the final scan, supersets of the reported paths are tried as recheck sets too (reported ∪ S, not chained): length 1: every S of size <= 2 (thorough: every subset) from the ancestors (incl. the root) of the reported paths and the siblings of both, the full ancestor chain, and each of %d paths naming nothing, for every chain; length 2: S of size <= 2 from the ancestors plus the full chain for the scan-once-at-the-end chain (thorough: as length 1 with |S| <= 2); length 3: single ancestors and the full chain (first mode pair only in each case, bound %d). Mode pairs: length 1 all 6; length 2 portable/portable (quick) or portable/portable, posix-raw/manual, ignore/portable (thorough); length 3 (thorough only, run last, under the time budget) portable/portable. Non-trivial = at least one edit changed what a full scan returns; distinct by (base, edit sequence, modes).",
-		len(bases), maxLen, c13Universe, len(c13misc), sups[1].MaxS))
+	r.Rule(fmt.Sprintf("%d base trees (a in {absent, file, dir{x}} x d in 8 shapes up to depth 3, incl. a link, a FIFO, executable files; plus a root that is itself a file, edited in place; plus 5 trees in which a name recurs at different levels with different content, e.g. d/{x,d/{x}} and d/{x}+e/{x,d/{x}}, edited over %v) x every sequence of 1..%d enabled edits from {mkfile, mkdir, mklink, rm (recursive), mv (incl. replacing a file or an empty directory), edit (same size, later mtime), grow, chmod, swap (same size and mtime, new inode), touch} over the path universe %v; for every sequence every scan schedule (which edits are followed by a scan; 2^(n-1)) is run as a chain of accelerated core.Scan calls whose baseline/cache/ignore cache are the previous accelerated result and whose recheck set is exactly the paths created/deleted/modified since the previous scan (no ancestors); each accelerated result is compared with a cold core.Scan of the same disk; at the final scan, supersets of the reported paths are tried as recheck sets too (reported ∪ S, not chained): length 1: every S of size <= 2 (thorough: every subset) from the ancestors (incl. the root) of the reported paths and the siblings of both, the full ancestor chain, and each of %d paths naming nothing, for every chain; length 2: S of size <= 2 from the ancestors plus the full chain for the scan-once-at-the-end chain (thorough: as length 1 with |S| <= 2); length 3: single ancestors and the full chain (first mode pair only in each case, bound %d). Mode pairs: length 1 all 6; length 2 portable/portable (quick) or portable/portable, posix-raw/manual, ignore/portable (thorough); length 3 (thorough only, run last, under the time budget) portable/portable. Non-trivial = at least one edit changed what a full scan returns; distinct by (base, edit sequence, modes).",
+		len(bases), c13NamesakeUniverse, maxLen, c13Universe, len(c13misc), sups[1].MaxS))
 	r.Assume("the harness stamps a distinct, strictly increasing modification time on every file it writes and keeps replaced inodes allocated, so every content change alters size, mtime or identity (the property's precondition) by construction; 'swap' keeps size and mtime and changes only the inode",
 		"reported paths = every created, deleted or modified path incl. all members of a removed or renamed subtree; ancestors and siblings appear only through the enumerated supersets",
 		"Mutagen ignorer with no patterns, SHA-1, probe mode probe, Linux/ext4",
